@@ -111,17 +111,24 @@ theorem pos_next {src k ls} (h : LineAt src k ls) : Pos src (k + 1) (lineEnd src
     refine .inr ⟨e, ?_⟩
     rw [qp_length_end h e, e]
 
-/-- AdvanceLine in both runs, from anywhere inside line `k` -/
-theorem advanceLine_LS {src al} (ns : NS src) {k ls p} {sA sB : St} (h : DR src al k ls p sA sB) :
+/-- AdvanceLine in both runs, from anywhere inside line `k` (also from behind a last line without `\n`) -/
+theorem advanceLine_LS {src al} {k ls p} {sA sB : St} (h : DR src al k ls p sA sB) :
     S2 (fun _ _ sA' sB' => LS src al (k + 1) (lineEnd src ls) sA' sB') (advanceLine sA) (advanceLine sB) := by
   have hi := h.s.r.inl
-  obtain ⟨hp, _⟩ := ns k ls p hi
-  have hplt := hi.lt_iff.mp hp
   have ha := ri_advanceLine h.s.r.a
   have hb := ri_advanceLine h.s.r.b
   simp only [RCur.advanceLine] at ha hb
   rw [hi.lineEnd_eq] at ha
-  rw [(qp_lineEnd hi.line hi.ge hplt).1] at hb
+  have hBend : lineEnd (quotePrefix src) (p + 2 * (k + 1)) = lineEnd src ls + 2 * (k + 1) := by
+    rcases Nat.lt_or_ge p (lineEnd src ls) with hplt | hge
+    · exact (qp_lineEnd hi.line hi.ge hplt).1
+    · have hpe : p = lineEnd src ls := by have := hi.le; omega
+      obtain ⟨he, _⟩ := hi.eof hpe
+      have hlen := qp_length_end hi.line he
+      have h1 := lineEnd_le (quotePrefix src) (p + 2 * (k + 1))
+      have h2 := lineEnd_ge (quotePrefix src) (p := p + 2 * (k + 1)) (by omega)
+      omega
+  rw [hBend] at hb
   refine S2.ok ⟨h.s.r.tf, ?_, ?_, h.s.n, h.s.c.loose, h.a, fun _ => ⟨h.s.c.blockOffset, h.s.c.blockIndent⟩⟩
   · simpa using ha
   · have e : lineEnd src ls + 2 * (k + 1) = lineEnd src ls + 2 * (k + 1) := rfl
@@ -213,7 +220,7 @@ theorem afterLine {src al} (ns : NS src) {f : Nat} (ih : MainP src al f) {k ls p
     ∃ x sB', (advanceLine >>= fun _ => linesLoop 0 f stB) sB1 = .ok ((true, x), sB') ∧
       FRel src sA'.nodes sB'.nodes := by
   obtain ⟨u, sA2, eA, hA2⟩ := bind_inv hA
-  obtain ⟨_, sB2, eB, hls⟩ := advanceLine_LS ns hd u sA2 eA
+  obtain ⟨_, sB2, eB, hls⟩ := advanceLine_LS hd u sA2 eA
   rw [bind_run eB]
   have hpos := pos_next hd.s.r.inl.line
   obtain ⟨h1, h2⟩ := ih (k + 1) (lineEnd src ls) sA2 sB2 hls hpos hfuel sA'
